@@ -707,8 +707,22 @@ func (ld *loader) resolveDependencies(ctx context.Context, rootPkgPaths []string
 			return rs, pkgs, nil
 		}
 
-		// TODO the original code calls updateRequirements at this point.
-		// /home/rogpeppe/go/src/cmd/go/internal/modload/load.go:1124
+		// Make the roots consistent with the packages just loaded before looking
+		// at what is missing: every module that provides a package of the build
+		// becomes a root, at the version the full set of roots selects. Without
+		// this, a root that is listed below the version another root requires
+		// stays as it is whenever no import happens to be missing, and the module
+		// file written in the end understates the version that is actually used.
+		// Roots are only ever added or raised, so this converges.
+		rs1, err := ld.updateRoots(ctx, rs, pkgs, nil)
+		if err != nil {
+			return nil, nil, fmt.Errorf("cannot tidy requirements: %v", err)
+		}
+		if !slices.Equal(rs1.RootModules(), rs.RootModules()) {
+			// The packages may come from other versions now: load them again.
+			rs = rs1
+			continue
+		}
 
 		modAddedBy, defaultMajorVersions := ld.resolveMissingImports(ctx, pkgs, rs)
 		if !maps.Equal(defaultMajorVersions, rs.DefaultMajorVersions()) {
@@ -725,7 +739,6 @@ func (ld *loader) resolveDependencies(ctx context.Context, rootPkgPaths []string
 		}
 		toAdd := slices.SortedFunc(maps.Keys(modAddedBy), module.Version.Compare) // to make errors deterministic
 		oldRs := rs
-		var err error
 		rs, err = ld.updateRoots(ctx, rs, pkgs, toAdd)
 		if err != nil {
 			return nil, nil, err
